@@ -8,6 +8,7 @@ import (
 	_ "go.amzn.com/verifh/c04"
 	_ "go.amzn.com/verifh/c05"
 	_ "go.amzn.com/verifh/c06"
+	_ "go.amzn.com/verifh/c07"
 	_ "go.amzn.com/verifh/c08"
 	_ "go.amzn.com/verifh/c09"
 	_ "go.amzn.com/verifh/c10"
